@@ -88,19 +88,15 @@ def allFlags : List Flags := [⟨true, true⟩, ⟨true, false⟩, ⟨false, tru
 def probe (k : Kind) (a : Acc) : Entry := ⟨0, k, a, [], [], true, 0⟩
 
 /-- what the auto-trait derivation may allow: a `Bump` / `BumpPool` moves to another thread only with `A: Send`,
-    a pool is shared and a pool guard moves only with `A: Send + Sync`, nothing else that holds an arena is
+    a pool guard moves and a pool is shared only with `A: Send + Sync`, nothing else that holds an arena is
     thread-safe at all -/
 def threadsAdequate (t : Table) : Bool :=
   allFlags.all fun fl =>
-    (!sendOK t fl (probe .bump .own) || fl.allocSend) &&
-    (!sendOK t fl (probe .pool .own) || fl.allocSend) &&
-    (!sendOK t fl (probe .poolGuard .own) || (fl.allocSend && fl.allocSync)) &&
-    (!shareOK t fl (probe .pool .own) || (fl.allocSend && fl.allocSync)) &&
-    !shareOK t fl (probe .bump .own) && !shareOK t fl (probe .poolGuard .own) &&
-    ([Kind.scope, .guard, .claim, .coll].all fun k => [Acc.own, .mutRef, .shrRef].all fun a =>
-      !sendOK t fl (probe k a) && !shareOK t fl (probe k a)) &&
-    -- (references to a Bump are never moved by `send`, which needs an owned entry; sharing them needs `Bump: Sync`)
-    ([Acc.mutRef, .shrRef].all fun a => !shareOK t fl (probe .bump a))
+    [Kind.bump, .scope, .guard, .claim, .pool, .poolGuard, .coll].all fun k =>
+      ([Acc.own, .mutRef, .shrRef].all fun a =>
+        !shareOK t fl (probe k a) || (k == .pool && fl.allocSend && fl.allocSync)) &&
+      (!sendOK t fl (probe k .own) ||
+        ((k == .bump || k == .pool) && fl.allocSend) || (k == .poolGuard && fl.allocSend && fl.allocSync))
 
 def sigOK (t : Table) : Bool :=
   t.sigs.all sigAdequate &&
